@@ -31,14 +31,15 @@ func Subscribe() *ControlChans {
 	return chans
 }
 
-// Unsubscribe removes the subscriber and closes its channels.
+// Unsubscribe removes the subscriber and closes its ResumeCh.
+// PauseCh is left open: a concurrent Pause may still be about to send on it,
+// and only the subscriber itself ever receives from it.
 func Unsubscribe(chans *ControlChans) {
 	manager.subscribers.Delete(chans)
-	// Close channels safely (deferred to avoid panic if already closed).
+	// Close channel safely (deferred to avoid panic if already closed).
 	defer func() {
 		recover()
 	}()
-	close(chans.PauseCh)
 	close(chans.ResumeCh)
 }
 
